@@ -270,45 +270,52 @@ func readerOrderRule(r *core.Report, rule string, keys ...string) {
 		if f == nil {
 			continue
 		}
-		info := f.Pkg.TypesInfo
-		g := p.Graph(f)
-		// find: for _, e := range S { readers = append(readers, e.gsfaReader) } and sort.Slice(S, > on .epoch) dominating it
+		anchor := f
+		// find: for _, e := range S { readers = append(readers, e.gsfaReader) } and sort.Slice(S, > on .epoch) dominating it;
+		// in the function itself or in a helper of the package it calls
 		var found bool
-		ast.Inspect(f.Body, func(n ast.Node) bool {
-			rs, ok := n.(*ast.RangeStmt)
-			if !ok {
-				return true
+		for _, f := range pkgScope(p, anchor, 1) {
+			if f.Lit != nil || f.Body == nil {
+				continue
 			}
-			appendsReader := false
-			ast.Inspect(rs.Body, func(m ast.Node) bool {
-				if c, ok := m.(*ast.CallExpr); ok && core.BuiltinName(info, c) == "append" && len(c.Args) >= 2 {
-					if strings.Contains(core.NamedTypeName(info.TypeOf(c.Args[1])), "gsfa.GsfaReader") {
-						appendsReader = true
-					}
+			info := f.Pkg.TypesInfo
+			g := p.Graph(f)
+			ast.Inspect(f.Body, func(n ast.Node) bool {
+				rs, ok := n.(*ast.RangeStmt)
+				if !ok {
+					return true
 				}
+				appendsReader := false
+				ast.Inspect(rs.Body, func(m ast.Node) bool {
+					if c, ok := m.(*ast.CallExpr); ok && core.BuiltinName(info, c) == "append" && len(c.Args) >= 2 {
+						if strings.Contains(core.NamedTypeName(info.TypeOf(c.Args[1])), "gsfa.GsfaReader") {
+							appendsReader = true
+						}
+					}
+					return true
+				})
+				if !appendsReader {
+					return true
+				}
+				found = true
+				so := core.ObjOf(info, rs.X)
+				_, isMap := info.TypeOf(rs.X).Underlying().(*types.Map)
+				key := anchor.Key + "#reader-list"
+				if isMap || so == nil {
+					r.Violation(rule, key, pos(r, rs), "the reader list is built by ranging over "+core.ExprStr(rs.X)+" which is not a sorted slice")
+					return true
+				}
+				rn := g.NodeOf(rs.X.Pos())
+				ok2, why := orderedSlice(p, f, so, rn, token.GTR, 0)
+				if !ok2 {
+					why = "the reader list is not built from a slice known to be ordered newest first: " + why
+				}
+				r.Check(ok2, rule, key, pos(r, rs), "a strict descending sort by epoch dominates the construction of the reader list", why)
 				return true
 			})
-			if !appendsReader {
-				return true
-			}
-			found = true
-			so := core.ObjOf(info, rs.X)
-			_, isMap := info.TypeOf(rs.X).Underlying().(*types.Map)
-			key := f.Key + "#reader-list"
-			if isMap || so == nil {
-				r.Violation(rule, key, pos(r, rs), "the reader list is built by ranging over "+core.ExprStr(rs.X)+" which is not a sorted slice")
-				return true
-			}
-			rn := g.NodeOf(rs.X.Pos())
-			ok2, why := orderedSlice(p, f, so, rn, token.GTR, 0)
-			if !ok2 {
-				why = "the reader list is not built from a slice known to be ordered newest first: " + why
-			}
-			r.Check(ok2, rule, key, pos(r, rs), "a strict descending sort by epoch dominates the construction of the reader list", why)
-			return true
-		})
+		}
 		if !found {
-			r.Undecided(rule, f.Key+"#reader-list", posP(r, f.Pos()), "loop that builds the reader list not found")
+			r.Undecided(rule, anchor.Key+"#reader-list", posP(r, anchor.Pos()), "loop that builds the reader list not found")
 		}
 	}
 	// the multi-epoch iterators range over the slice of readers (not a map)
@@ -438,9 +445,139 @@ func c07AbsentSkipped(r *core.Report) {
 				"the IsNotFound branch returns instead of continuing with the next epoch: an address missing from one epoch fails or truncates the whole request")
 		}
 		if !found {
+			found = c07AbsentViaHelper(r, rule, f)
+		}
+		if !found {
 			r.Undecided(rule, f.Key+"#not-found-branch", posP(r, f.Pos()), "IsNotFound test after the address lookup not found")
 		}
 	}
+}
+
+// c07AbsentViaHelper: the address lookup sits in a helper of the package that turns "not found" into a false `found`
+// result (with a nil error); the caller's branch for found == false must then continue with the next epoch.
+// collectsAllKeys: fn ranges over the map m and appends the key of every entry, unconditionally, to list.
+func collectsAllKeys(fn *core.Func, list, m types.Object) bool {
+	info := fn.Pkg.TypesInfo
+	ok := false
+	ast.Inspect(fn.Body, func(n ast.Node) bool {
+		rs, isR := n.(*ast.RangeStmt)
+		if !isR || core.ObjOf(info, rs.X) != m || rs.Key == nil {
+			return true
+		}
+		ko := core.ObjOf(info, rs.Key)
+		for _, st := range rs.Body.List {
+			as, isA := st.(*ast.AssignStmt)
+			if !isA || len(as.Rhs) != 1 || len(as.Lhs) != 1 || core.ObjOf(info, as.Lhs[0]) != list {
+				continue
+			}
+			if c, isC := core.Unparen(as.Rhs[0]).(*ast.CallExpr); isC && core.BuiltinName(info, c) == "append" && len(c.Args) == 2 && core.ObjOf(info, c.Args[0]) == list && ko != nil && core.ObjOf(info, c.Args[1]) == ko {
+				ok = true
+			}
+		}
+		return true
+	})
+	return ok
+}
+
+func c07AbsentViaHelper(r *core.Report, rule string, f *core.Func) bool {
+	p := r.Prog
+	info := f.Pkg.TypesInfo
+	g := p.Graph(f)
+	for _, n := range stmtNodes(g) {
+		as, ok := n.Ast.(*ast.AssignStmt)
+		if !ok || len(as.Rhs) != 1 {
+			continue
+		}
+		call, ok := core.Unparen(as.Rhs[0]).(*ast.CallExpr)
+		if !ok {
+			continue
+		}
+		fo := core.Callee(info, call)
+		if fo == nil {
+			continue
+		}
+		h := p.ByObj[fo.Origin()]
+		if h == nil || h.Body == nil || h.Pkg != f.Pkg {
+			continue
+		}
+		hi := h.Pkg.TypesInfo
+		hg := p.Graph(h)
+		var nfEdge *core.GNode
+		for _, e := range hg.Nodes {
+			if e.Kind != core.KEdge || !e.Truth || e.Ast == nil {
+				continue
+			}
+			if c, ok := core.Unparen(e.Ast.(ast.Expr)).(*ast.CallExpr); ok && strings.HasSuffix(core.CalleeName(hi, c), ".IsNotFound") {
+				nfEdge = e
+			}
+		}
+		if nfEdge == nil {
+			continue
+		}
+		// the returns of the helper under the not-found edge: nil error, and a bool result that is false there
+		boolIdx := -1
+		okShape := true
+		nRet := 0
+		for _, rn := range hg.Returns() {
+			if !hg.Dominates(nfEdge, rn) {
+				continue
+			}
+			nRet++
+			if nilErr, dec := isNilErrReturn(h, rn); !dec || !nilErr {
+				okShape = false
+			}
+			for i, e := range returnResults(rn) {
+				if tv, ok := hi.Types[e]; ok && tv.Value != nil && tv.Type != nil {
+					if b, isB := tv.Type.Underlying().(*types.Basic); isB && b.Info()&types.IsBoolean != 0 && tv.Value.String() == "false" {
+						boolIdx = i
+					}
+				}
+			}
+		}
+		if nRet == 0 {
+			continue
+		}
+		if !okShape || boolIdx < 0 || boolIdx >= len(as.Lhs) {
+			r.Undecided(rule, f.Key+"#not-found-branch", pos(r, call), "the helper "+h.Key+" reports an absent address in a way that was not recognised (expected: nil error and a false `found` result)")
+			return true
+		}
+		foundObj := core.ObjOf(info, as.Lhs[boolIdx])
+		if foundObj == nil {
+			r.Violation(rule, f.Key+"#not-found-branch", pos(r, call), "the `found` result of "+h.Key+" is discarded: an address absent from one epoch is treated as present")
+			return true
+		}
+		decided := false
+		for _, e := range g.Nodes {
+			if e.Kind != core.KEdge || !g.Dominates(n, e) {
+				continue
+			}
+			isNF := false
+			for _, fc := range e.Facts() {
+				if fc.Tag == nil && !fc.Truth && core.ObjOf(info, fc.Expr) == foundObj {
+					isNF = true
+				}
+			}
+			if !isNF {
+				continue
+			}
+			decided = true
+			returnsFirst := false
+			for m := range g.ReachFromIncl(e, nil) {
+				if m.Kind == core.KStmt && g.Dominates(e, m) {
+					if _, isRet := m.Ast.(*ast.ReturnStmt); isRet {
+						returnsFirst = true
+					}
+				}
+			}
+			r.Check(!returnsFirst, rule, f.Key+"#not-found-branch", pos(r, call), "an address absent from one epoch ("+h.Key+" reports found == false) continues with the next epoch",
+				"the branch for an address absent from this epoch returns instead of continuing with the next epoch: an address missing from one epoch fails or truncates the whole request")
+		}
+		if !decided {
+			r.Violation(rule, f.Key+"#not-found-branch", pos(r, call), "the `found` result of "+h.Key+" is never tested: an address absent from one epoch is treated as present")
+		}
+		return true
+	}
+	return false
 }
 
 func c07WindowShape(r *core.Report) {
@@ -604,14 +741,18 @@ func c07LimitCountsWholeResult(r *core.Report) {
 			// classify every edge that is the false outcome of a condition with a `q >= limit` conjunct
 			wholeEdge := map[*core.GNode]bool{}
 			classify := func(d *core.GNode) (isLimit, isWhole bool, what string) {
-				if d.Kind != core.KEdge || d.Truth || d.Ast == nil {
+				if d.Kind != core.KEdge || d.Ast == nil {
 					return
 				}
-				cond, ok := d.Ast.(ast.Expr)
-				if !ok {
-					return
+				// the tests known to have failed on this edge: `if limit > 0 && size >= limit { break }` (false edge),
+				// `for ... && !(limit > 0 && size >= limit)` (true edge), also through a local predicate closure
+				var failed []ast.Expr
+				if cond, isE := d.Ast.(ast.Expr); isE && d.Tag == nil {
+					for _, t := range failedTests(cond, d.Truth) {
+						failed = append(failed, conjuncts(t)...)
+					}
 				}
-				for _, cj := range conjuncts(cond) {
+				for _, cj := range failed {
 					be, ok := core.Unparen(cj).(*ast.BinaryExpr)
 					if !ok || (be.Op != token.GEQ && be.Op != token.LEQ) {
 						continue
@@ -670,6 +811,25 @@ func c07LimitCountsWholeResult(r *core.Report) {
 			}
 		}
 	}
+}
+
+// failedTests returns the sub-conditions that are known to be false, each as a whole, when cond has the given outcome.
+func failedTests(cond ast.Expr, truth bool) []ast.Expr {
+	cond = core.Unparen(cond)
+	switch c := cond.(type) {
+	case *ast.UnaryExpr:
+		if c.Op == token.NOT {
+			return failedTests(c.X, !truth)
+		}
+	case *ast.BinaryExpr:
+		if (c.Op == token.LAND && truth) || (c.Op == token.LOR && !truth) {
+			return append(failedTests(c.X, truth), failedTests(c.Y, truth)...)
+		}
+	}
+	if !truth {
+		return []ast.Expr{cond}
+	}
+	return nil
 }
 
 func conjuncts(e ast.Expr) []ast.Expr {
@@ -991,20 +1151,45 @@ func c07EveryFoundEntryAnswered(r *core.Report) {
 	if lo == found {
 		covers = true
 	}
-	ast.Inspect(f.Body, func(n ast.Node) bool {
-		rs, ok := n.(*ast.RangeStmt)
-		if !ok || core.ObjOf(info, rs.X) != found {
-			return true
+	if lo != nil && collectsAllKeys(f, lo, found) {
+		covers = true // list of the map's keys
+	}
+	// ... or the result of a helper of the package that collects the keys of the map it is handed
+	listExpr := core.Unparen(loop.X)
+	if lo != nil && !covers {
+		if d := singleDef(f, lo); d != nil {
+			listExpr = core.Unparen(d)
 		}
-		for _, st := range rs.Body.List {
-			if as, ok := st.(*ast.AssignStmt); ok && len(as.Rhs) == 1 && core.ObjOf(info, as.Lhs[0]) == lo {
-				if c, ok := core.Unparen(as.Rhs[0]).(*ast.CallExpr); ok && core.BuiltinName(info, c) == "append" {
-					covers = true // list of the map's keys
+	}
+	if c, ok := listExpr.(*ast.CallExpr); ok && !covers {
+		if fo := core.Callee(info, c); fo != nil {
+			if h := r.Prog.ByObj[fo.Origin()]; h != nil && h.Body != nil && h.Pkg == f.Pkg {
+				for ai, a := range c.Args {
+					if core.ObjOf(info, a) != found || h.ParamObj(ai) == nil {
+						continue
+					}
+					hg := r.Prog.Graph(h)
+					all := true
+					nRet := 0
+					for _, rn := range hg.Returns() {
+						res := returnResults(rn)
+						if len(res) == 0 {
+							all = false
+							continue
+						}
+						nRet++
+						ro := core.ObjOf(h.Pkg.TypesInfo, res[0])
+						if ro == nil || !collectsAllKeys(h, ro, h.ParamObj(ai)) {
+							all = false
+						}
+					}
+					if all && nRet > 0 {
+						covers = true
+					}
 				}
 			}
 		}
-		return true
-	})
+	}
 	if !covers && lo != nil {
 		// the list of epochs of the readers (second result of getGsfaReadersInEpochDescendingOrder) covers every found epoch
 		if d := singleDefTuple(f, lo); d != nil && strings.HasSuffix(core.CalleeName(info, d), "getGsfaReadersInEpochDescendingOrder") {
